@@ -37,6 +37,26 @@ def ob_generate(n, mode):
     return f
 
 
+def ob_generate_workers(mode, nmax, wmax):
+    """every (number of agents, worker count) pair: n and workers are solver variables (enumerated by realisation)"""
+    def f():
+        st = stubs.Stream("np")
+        with env(stubs.numpy_stream_layer(lambda: st), stubs.pool_layer(order="submission")):
+            n = sym.integer("n_agents", 1, nmax)
+            w = sym.integer("workers", 1, wmax)
+            t = make_task([cont()], lambda x, i: float(i))
+            o = Scripted(M.BaseOptimizationConfig(population_size=int(n), fitness_error=None, max_cycles=1))
+            res = o.optimize(t, mode=mode, workers=int(w))
+            sizes = [len(g.agents) for g in res.evolution]
+            if any(s != n for s in sizes):
+                return Failure("generation-size-is-not-population_size", sizes=sizes, population_size=n, workers=w, mode=mode)
+            if len(t.data["log"]) != n:
+                return Failure("number-of-evaluations-differs-from-population_size", evaluations=len(t.data["log"]),
+                               population_size=n, workers=w)
+            return OK
+    return f
+
+
 def ob_greedy_len(k, mode):
     def f():
         layers = [stubs.pool_layer()] if mode != "serial" else []
@@ -70,20 +90,27 @@ def ob_trim_len(k, j, ps):
 
 
 def ob_groups(P):
+    """n_groups groups of n_agents agents each plus the residual agents partition the population, for every
+    (n_groups, n_agents) with n_groups * n_agents <= P - both calling conventions used by the algorithms:
+    (g, P // g) (Elephant Herd) and (P // k, k) (Coyotes)"""
     def f():
         with env():
             g = sym.integer("n_groups", 1, P)
+            k = sym.integer("n_agents", 1, P)
+            sym.assume(g * k <= P)
             o = Scripted(config(population_size=P))
             o._population = [agent(i, float(i)) for i in range(P)]
-            groups = o._generate_group_population(g, P // g)
+            groups = o._generate_group_population(g, k)
             tags = [a.position[0] for grp in groups for a in grp]
             if sorted(tags) != list(range(P)):
-                return Failure("groups-do-not-partition-the-population", P=P, n_groups=g, tags=tags)
+                return Failure("groups-do-not-partition-the-population", P=P, n_groups=g, n_agents=k, tags=tags)
             if any(len(grp) == 0 for grp in groups):
-                return Failure("empty-group", P=P, n_groups=g)
-            nores = o._generate_group_population(g, P // g, with_residual=False)
-            if len(nores) != g or any(len(grp) != P // g for grp in nores):
-                return Failure("groups-without-residual:shape", P=P, n_groups=g)
+                return Failure("empty-group", P=P, n_groups=g, n_agents=k)
+            if any(len(grp) != k for grp in groups[:g]):
+                return Failure("group-size", P=P, n_groups=g, n_agents=k)
+            nores = o._generate_group_population(g, k, with_residual=False)
+            if len(nores) != g or any(len(grp) != k for grp in nores):
+                return Failure("groups-without-residual:shape", P=P, n_groups=g, n_agents=k)
             return OK
     return f
 
@@ -136,6 +163,8 @@ def obligations(tier):
             obs.append(Ob(f"generate[n={n},{mode}]", ob_generate(n, mode), 600))
             if n >= 2 and (n <= 3 or mode == "serial"):
                 obs.append(Ob(f"greedy_len[k={n},{mode}]", ob_greedy_len(n, mode), 900))
+    for mode in ("thread", "process"):
+        obs.append(Ob(f"generate_workers[{mode}]", ob_generate_workers(mode, 12 if th else 8, 6 if th else 5), 900))
     for k in range(0, N):
         for j in range(0, N):
             for ps in (1, 2, 4):
